@@ -1075,7 +1075,7 @@ func addDeleteChildren(index configapi.Index, changeValues map[string]configapi.
 		// if this pathValue has to be deleted, then we need to search for all children of this pathValue
 		if changeValue.Deleted {
 			for _, value := range configStore {
-				if strings.HasPrefix(value.Path, changeValue.Path) && !strings.EqualFold(value.Path, changeValue.Path) {
+				if pathutils.IsSubPath(value.Path, changeValue.Path) && !strings.EqualFold(value.Path, changeValue.Path) {
 					value.Index = index
 					value.Deleted = true
 					updChangeValues[value.Path] = value
